@@ -293,6 +293,32 @@ PLAN_C18 = {
 }
 
 
+T5 = dict(tabcols="MC5_TabCols", colvals="MC5_ColVals")
+PLAN_C05 = {
+    "mc": [dict(what="laws of the reference on single-method extends over all 1-row tables (x in {null,-2,0,1,3}, y in {null,-1,0,2})",
+                fams=["extend"], rows=1, steps=1, level=3, invariants=["DeclaredCols", "HistOK", "StepLaw"], **T5)],
+    "emit": [
+        dict(what="every catalogued scalar method x every argument tuple: all 1-row tables", fams=["extend"], rows=1, steps=1, level=3, **T5),
+        dict(what="every catalogued scalar method over all 2-row tables (sampled)", fams=["extend"], rows=2, steps=1, level=3, one_in=12,
+             **T5),
+        dict(what="methods defined on infinite values (is_null, is_bad, coalesce, coalesce_0, negation, abs, sign): all 1-row tables with "
+                  "x in {null, +inf, -inf, 1}", fams=["extend"], rows=1, steps=1, level=3, tabcols="MC5_TabCols", colvals="MC5I_ColVals"),
+    ],
+    "sim": None,
+    "backends": ("pandas", "sqlite", "pg", "polars"),
+    "allow_raise": ("polars", "polars_lazy"),
+    "nontrivial": lambda c: nt_rows(c, 1),
+    "limit": (8000, 60000),
+    "assumptions": ["scalar methods with an exact documented meaning: arithmetic + - * / // % ** mod remainder (// % on non-negative "
+                    "operands and a positive divisor, ** with exponent 0..3), comparisons, and/or/not, maximum/minimum/fmax/fmin, "
+                    "coalesce, coalesce_0, abs, sign, negation, floor/ceil on whole numbers, is_null, is_bad, if_else, where, is_in; "
+                    "transcendental methods are uninterpreted in the spec (null propagation and domain only) and realised with "
+                    "Python's math module; aggregates and window functions are checked by C09 and C27",
+                    "date/time, string and random methods are not covered",
+                    "PostgreSQL-dialect SQL is executed on SQLite (proxy)"],
+}
+
+
 def check_C01(tier, replay=None):
     return run_plan("C01", tier, PLAN_C01, replay)
 
@@ -307,6 +333,7 @@ CHECKS = {
     "C01": check_C01,
     "C02": mk("C02", PLAN_C02),
     "C03": mk("C03", PLAN_C03),
+    "C05": mk("C05", PLAN_C05),
     "C08": mk("C08", PLAN_C08),
     "C09": mk("C09", PLAN_C09),
     "C16": mk("C16", PLAN_C16),
